@@ -9,6 +9,7 @@ CONSTANTS
   TripleStride = 3
   ValueStride = 20
   PointStride = 2
+  LightStride = 1
   ShapeFrom = "named dims"
 CONSTRAINT Export
 INVARIANT ImplRefinesReq
